@@ -260,6 +260,22 @@ Theorem C11_serve_sequence_permutation : forall c reqs reqs',
 Proof. exact serve_sequence_permutation. Qed.
 Print Assumptions C11_serve_sequence_permutation.
 
+(* ---- What the server stores.  An accepted report is stored by encoding the
+   DECODED report again, a refused one stores nothing: the stored object is the
+   report that was validated - within the configuration, no other member - and
+   the stored-object oracle (applied to the TEXT of the object read back from
+   the bucket) accepts the model. *)
+Theorem C11_server_store_within : forall u sem r s,
+  server_store (new_config u) sem r = Some s -> s = r /\ report_withinb u s = true.
+Proof. exact server_store_within. Qed.
+Print Assumptions C11_server_store_within.
+
+Theorem C11_stored_oracle_model : forall u sem r,
+  stored_check u (match server_validate (new_config u) sem r with VOk => true | _ => false end)
+               (server_store (new_config u) sem r) false = [].
+Proof. exact stored_check_model. Qed.
+Print Assumptions C11_stored_oracle_model.
+
 (* ---- Viewer, Charts section (charts() after fix c8e437d).  A chart is shown
    as present in the configuration iff some configured counter of the program
    belongs to it (its collapsed name is <chart>:..., or it expands to the
